@@ -173,6 +173,28 @@ Proof.
   - rewrite send_error_eq; apply Same_send.
 Qed.
 
+Lemma ptu_frame_cc s c :
+  buf (fst (process_titan_upload (set_content (cancel_timer s) c))) = buf s /\
+  line_rcvd (fst (process_titan_upload (set_content (cancel_timer s) c))) = line_rcvd s /\
+  await_titan (fst (process_titan_upload (set_content (cancel_timer s) c))) = false.
+Proof.
+  destruct (ptu_frame (set_content (cancel_timer s) c)) as [E1 [E2 E3]]. rewrite E1, E2, E3.
+  rewrite cancel_timer_eq. repeat split.
+Qed.
+Lemma ptu_frame_c s :
+  buf (fst (process_titan_upload (cancel_timer s))) = buf s /\
+  line_rcvd (fst (process_titan_upload (cancel_timer s))) = line_rcvd s /\
+  await_titan (fst (process_titan_upload (cancel_timer s))) = false.
+Proof.
+  destruct (ptu_frame (cancel_timer s)) as [E1 [E2 E3]]. rewrite E1, E2, E3.
+  rewrite cancel_timer_eq. repeat split.
+Qed.
+Lemma Same_hg_c s line : Same s (fst (handle_gemini (cancel_timer s) line)).
+Proof.
+  destruct (Same_hg (cancel_timer s) line) as [E1 [E2 E3]]. unfold Same. rewrite E1, E2, E3.
+  rewrite cancel_timer_eq. repeat split.
+Qed.
+
 (* ---------- data_received = append, then look at the buffer ---------- *)
 Definition dispatch (s1 : st) (line : str) : st * list action :=
   match decode line with
@@ -255,8 +277,7 @@ Proof.
       apply then_app_done; congruence. }
   destruct (prefixb titan_prefix url).
   2:{ unfold app_buf. rewrite cancel_buf, hg_buf, L.
-      destruct (Same_hg (cancel_timer s) url) as [E1 [E2 E3]].
-      rewrite cancel_timer_eq in E1, E2, E3. cbn [buf line_rcvd await_titan set_timer] in E1, E2, E3.
+      destruct (Same_hg_c s url) as [E1 [E2 E3]].
       apply then_app_done; congruence. }
   unfold ServerProto.handle_titan_url.
   destruct (negb has_upload).
@@ -269,8 +290,8 @@ Proof.
     + change (cancel_timer (set_titan (app_buf s d) t))
         with (cancel_timer (set_buf (set_titan s t) (buf s ++ d) (line_rcvd s))).
       rewrite cancel_buf, ptu_buf, L.
-      destruct (ptu_frame (cancel_timer (set_titan s t))) as [E1 [E2 E3]].
-      rewrite cancel_timer_eq in E1, E2. cbn [buf line_rcvd set_timer set_titan] in E1, E2.
+      destruct (ptu_frame_c (set_titan s t)) as [E1 [E2 E3]].
+      cbn [buf line_rcvd set_titan] in E1, E2.
       apply then_app_done; congruence.
     + cbn [buf set_await set_titan app_buf set_buf].
       destruct (N.leb (t_size t) (N.of_nat (length (buf s)))) eqn:Le.
@@ -278,15 +299,14 @@ Proof.
           by (rewrite app_length; clear - Le; lia).
         rewrite Le2. rewrite take_app_le by (clear - Le; lia).
         set (c := take _ _).
-        change (set_content (cancel_timer (set_await (set_titan (set_buf s (buf s ++ d) (line_rcvd s)) t) true)) c)
+        change (set_content (cancel_timer (set_await (set_titan (app_buf s d) t) true)) c)
           with (set_content (cancel_timer (set_buf (set_await (set_titan s t) true) (buf s ++ d) (line_rcvd s))) c).
         rewrite cancel_buf.
         change (set_content (set_buf (cancel_timer (set_await (set_titan s t) true)) (buf s ++ d) (line_rcvd s)) c)
           with (set_buf (set_content (cancel_timer (set_await (set_titan s t) true)) c) (buf s ++ d) (line_rcvd s)).
         rewrite ptu_buf, L.
-        destruct (ptu_frame (set_content (cancel_timer (set_await (set_titan s t) true)) c)) as [E1 [E2 E3]].
-        rewrite cancel_timer_eq in E1, E2.
-        cbn [buf line_rcvd set_timer set_titan set_await set_content] in E1, E2.
+        destruct (ptu_frame_cc (set_await (set_titan s t) true) c) as [E1 [E2 E3]].
+        cbn [buf line_rcvd set_titan set_await] in E1, E2.
         apply then_app_done; congruence.
       * rewrite then_app_id. unfold look.
         cbn [line_rcvd await_titan titan buf app_buf set_buf set_await set_titan].
@@ -294,7 +314,7 @@ Proof.
   - unfold app_buf. rewrite !send_error_eq, send_buf, L.
     destruct (Same_send s (err_resp 59 (lit "Invalid Titan URL: " ++ m))) as [E1 [E2 E3]].
     apply then_app_done; congruence.
-  - rewrite (then_app_done _ (buf s)) by assumption. unfold lift, app_buf. cbn [fst snd]. rewrite L. reflexivity.
+  - rewrite (then_app_done _ (buf s)) by (cbn [fst]; first [assumption|reflexivity]). unfold lift, app_buf. cbn [fst snd]. rewrite L. reflexivity.
 Qed.
 
 (* ---------- the merge lemma: two slices = their concatenation ---------- *)
@@ -310,17 +330,15 @@ Proof.
     assert (Le2 : N.leb (t_size t) (N.of_nat (length (buf s ++ d))) = true)
       by (rewrite app_length; clear - Le; lia).
     rewrite Le2. rewrite take_app_le by (clear - Le; lia). set (c := take _ _).
-    rewrite cancel_buf.
+    unfold app_buf. rewrite cancel_buf, L.
     change (set_content (set_buf (cancel_timer s) (buf s ++ d) true) c)
       with (set_buf (set_content (cancel_timer s) c) (buf s ++ d) true).
     rewrite ptu_buf.
-    destruct (ptu_frame (set_content (cancel_timer s) c)) as [E1 [E2 E3]].
-    rewrite cancel_timer_eq in E1, E2. cbn [buf line_rcvd set_timer set_content] in E1, E2.
+    destruct (ptu_frame_cc s c) as [E1 [E2 E3]].
     apply then_app_done; congruence.
   - specialize (J eq_refl). destruct (toobig (buf s)) eqn:TB.
     + unfold look. cbn [line_rcvd buf app_buf set_buf]. rewrite L, (toobig_app _ d TB).
-      rewrite !send_error_eq. change (set_buf s (buf s ++ d) false) with (set_buf s (buf s ++ d) false).
-      rewrite send_buf.
+      rewrite !send_error_eq. unfold app_buf. rewrite send_buf, L.
       destruct (Same_send s (err_resp 59 too_big)) as [E1 [E2 E3]].
       apply then_app_toobig; try congruence. apply muted_send.
     + destruct (break_crlf (buf s)) as [[line rest]|] eqn:B; [|apply then_app_id].
@@ -338,14 +356,14 @@ Lemma data_received_merge s d1 d2 :
   = data_received s (d1 ++ d2).
 Proof.
   intro J. rewrite !data_received_look. rewrite <- app_buf_app.
-  rewrite <- look_merge by exact J. reflexivity.
+  rewrite <- (look_merge (app_buf s d1) d2 J). reflexivity.
 Qed.
 
 (* ---------- feed = one data_received of the concatenation ---------- *)
 Lemma feed_cons s d r :
   feed s (d :: r) = (fst (feed (fst (data_received s d)) r),
                      snd (data_received s d) ++ snd (feed (fst (data_received s d)) r)).
-Proof. cbn [ServerProto.feed]. destruct (data_received s d) as [s1 a1]. destruct (feed s1 r). reflexivity. Qed.
+Proof. cbn [ServerProto.feed]. destruct (data_received s d) as [s1 a1]. cbn [fst snd]. destruct (feed s1 r). reflexivity. Qed.
 
 Lemma feed_concat sl : forall s d, Inv s -> feed s (d :: sl) = data_received s (concat (d :: sl)).
 Proof.
